@@ -71,7 +71,21 @@ fn check_insert(cfg: &'static dyn Config, lines: &[Line], pos: usize, extra: &Li
     }
     let kind = match is_trace_free_kind(cfg, extra, extra_out) {
         Ok(k) => k,
-        Err(why) => return Verdict::Excluded(why),
+        Err(why) => {
+            // accepted as a fragment. If the reassembly rules say this very line must be rejected
+            // (validly numbered, k >= 2, but not the direct continuation of the open group), it is a line
+            // "rejected because of its fragment sequencing" in every conforming parser - and here it has
+            // obviously left a trace. Judged with the reference model on the prefix.
+            let mut with_extra: Vec<Line> = lines[..pos].to_vec();
+            with_extra.push(Line::new(extra.bytes.clone(), false));
+            let (_steps, fail) = crate::props::hist::judge_history(cfg, &with_extra, crate::props::hist::SEQ);
+            if let Some(f) = fail {
+                if f.line_no == pos {
+                    return Verdict::fail(format!("the inserted line is rejected for its sequencing and leaves no trace: {}", f.expected), f.observed);
+                }
+            }
+            return Verdict::Excluded(why);
+        }
     };
     if kind == "rejected" && cfg.name() == "none" {
         // C17 names form, checksum and sequencing. A fragment refused because the 384-byte buffer is full is
